@@ -162,3 +162,28 @@ example : contract (fun a => delta a 0) (addChain 2 (-3) [a0, a1] [b0, b1]) [1, 
   decide
 
 end C09Examples
+
+/-! ### the shipped `spatial_inversion` of an infinite MPS (known finding, repair pending) -/
+namespace C09Examples
+
+/-- a two-site infinite unit cell with bond dimensions 1 (left of site 0) and 2 (left of site 1) -/
+def cell : MPSM Int :=
+  { L := 2
+    site := fun j => if j = 0 then { dL := 1, d := 2, dR := 2, B := fun _ _ _ => 1, form := some (0, 2) }
+                     else { dL := 2, d := 2, dR := 1, B := fun _ _ _ => 1, form := some (0, 2) }
+    bond := fun j => if j = 0 then { chi := 1, R := fun _ => 1, Rinv := fun _ => 1 }
+                     else { chi := 2, R := fun _ => 1, Rinv := fun _ => 1 }
+    norm := 1, bc := BC.infinite }
+
+end C09Examples
+
+/-- **Counterexample for the code as shipped** (`self._S = self._S[::-1]` for every bc): on an
+infinite MPS the singular values of bond 0 (the mirror-symmetric bond between unit cells) must stay
+on bond 0, but the shipped reversal puts those of bond `L-1` there — here a vector of length 2 next
+to a tensor whose left leg has dimension 1 (`test_sanity`: "shape of B incompatible with len of
+singular values"). -/
+theorem C09_spatial_inversion_as_shipped_counterexample :
+    (C09Examples.cell.spatialInversionAsShipped.bond 0).chi ≠ (C09Examples.cell.spatialInversionAsShipped.site 0).dL ∧
+    (C09Examples.cell.spatialInversion.bond 0).chi = (C09Examples.cell.spatialInversion.site 0).dL ∧
+    (C09Examples.cell.spatialInversion.bond 1).chi = (C09Examples.cell.spatialInversion.site 1).dL := by
+  decide
